@@ -19,6 +19,15 @@
 (*            ms milliseconds later c reads again.  QoS0 copies beyond the queue's capacity may be dropped       *)
 (*            (the contract's waiver), every QoS1 copy must arrive, and so must the PUBACK of c's PUBLISH.        *)
 (*            (With a QoS0 burst c acknowledges promptly, so that nothing but the burst is in its queue.)          *)
+(*            While c is stalled (its queue full, the fan-outs of the burst blocked) a message is published for     *)
+(*            ANOTHER client d on a topic c holds no matching subscription for (by |-> [c, t, q]; c = "" if there    *)
+(*            is no such client): the property's independence clause - d must get it while c stays away.              *)
+(*   resume   (WithResume) a client with a persistent session (cleanSession=false; Persistent of MqttTopics) ends      *)
+(*            its connection - EOF, DISCONNECT - and connects again, or a second connection takes its id over, with      *)
+(*            cleanSession=false: the session is resumed, every subscription is live again with its own QoS             *)
+(*            (MqttTopics!Resume), and the publishes that follow are owed as before.  A resumed client acknowledges       *)
+(*            promptly (the code does not persist unacknowledged messages; nothing is unacknowledged at the resume).       *)
+(*            These scenarios use literal filters (one per topic): sessions of 4-8 filters of both QoS.                    *)
 EXTENDS MqttDelivery, Json, SequencesExt
 
 CONSTANTS GenFilters, MaxSteps,
@@ -30,6 +39,8 @@ CONSTANTS GenFilters, MaxSteps,
                         \* packets dropped by the pipeline and retransmitted with DUP=1 are frequent
           Ages,         \* the values age[c] is drawn from
           WithStall,    \* TRUE: stalled-reader steps are generated
+          WithResume,   \* TRUE: resume scenarios - SubSteps subscribe steps, then resumes (every 5th step) and QoS1 publishes
+          SubSteps,
           StallMs       \* the durations (ms) a stalled reader stays away after its PUBLISH
 VARIABLES out, pol, k, age
 
@@ -42,7 +53,8 @@ GInit == /\ subs = {} /\ n = 0 /\ last = [a |-> "init"]
          /\ ackd = [c \in Clients |-> {}] /\ resends = 0 /\ up = <<>> /\ piped = {} /\ upack = <<>> /\ step = [a |-> "init"]
          /\ infl = [c \in Clients |-> [p \in PidsUp |-> 0]] /\ byst = {} /\ rl = [c \in Clients |-> 0]
          /\ pol \in [Clients -> Policies] /\ k = 0 /\ age \in [Clients -> Ages]
-         /\ out = ToJson([a |-> "init", pol |-> pol, age |-> age])
+         /\ WithResume => \A c \in Persistent : pol[c] = "prompt"
+         /\ out = ToJson([a |-> "init", pol |-> pol, age |-> age, pers |-> SetToSeq(Persistent)])
 
 Frame == UNCHANGED <<msgs, inq, pend, got, ackd, resends, up, piped, upack, rl, infl, byst, step, pol, age>>
 
@@ -67,16 +79,40 @@ GCPubX == \E c \in Clients, pid \in PidsUp, re \in BOOLEAN, v \in Verdicts :
            /\ ClientPublish(c, pid, 1, TAB, re, v)
            /\ out' = ToJson([a |-> "cpubx", c |-> c, pid |-> pid, q |-> 1, t |-> TAB, u |-> step'.u, dup |-> re, v |-> v])
            /\ UNCHANGED <<pol, age>>
+(* the bystanders of a stall of c: a client d # c, a topic c holds no matching subscription for, a QoS d is eligible at *)
+Indep(c) == {b \in [c : Clients \ {c}, t : PubTopics, q : QoS] : b.c \in Must(b.t, b.q) /\ c \notin May(b.t, b.q)}
+NoBy == [c |-> "", t |-> <<>>, q |-> 0]
+StallCands == {c \in Clients : \E t \in PubTopics, q \in QoS : c \in Must(t, q) /\ (q = 0 => pol[c] = "prompt")}
 GStall == \E c \in Clients, t \in PubTopics, q \in QoS, d \in StallMs :
            /\ WithStall
            /\ c \in Must(t, q)
            /\ q = 0 => pol[c] = "prompt"
-           /\ out' = ToJson([a |-> "stall", c |-> c, t |-> t, q |-> q, ms |-> d, n |-> QCap + 10,
-                               must |-> SetToSeq(Must(t, q)), may |-> SetToSeq(May(t, q))])
+           \* (prefer the stalls that have a bystander, and a QoS1 burst - the fan-outs of a QoS0 burst never wait - for those)
+           /\ (\E x \in StallCands : Indep(x) # {}) => Indep(c) # {}
+           /\ (Indep(c) # {} /\ \E t2 \in PubTopics : c \in Must(t2, 1)) => q = 1
+           /\ \E by \in (IF Indep(c) = {} THEN {NoBy} ELSE Indep(c)) :
+                out' = ToJson([a |-> "stall", c |-> c, t |-> t, q |-> q, ms |-> d, n |-> QCap + 10, by |-> by,
+                               must |-> SetToSeq(Must(t, q)), may |-> SetToSeq(May(t, q)),
+                               bymust |-> SetToSeq(IF by.c = "" THEN {} ELSE Must(by.t, by.q))])
+           /\ UNCHANGED vars /\ Frame
+OwnSubs(c) == {s \in subs : s.c = c}
+GResume == \E c \in GenClients, how \in {"eof", "disc", "takeover"} :
+           /\ WithResume /\ pol[c] = "prompt" /\ OwnSubs(c) # {}
+           /\ Resume(c)
+           /\ out' = ToJson([a |-> "resume", c |-> c, how |-> how, nsub |-> Cardinality(OwnSubs(c)),
+                               mixed |-> Cardinality({s.q : s \in OwnSubs(c)}) > 1]) /\ Frame
+ResumePossible == \E c \in GenClients : c \in Persistent /\ pol[c] = "prompt" /\ OwnSubs(c) # {}
+(* resume scenarios: publishes somebody must get *)
+GPubR == \E t \in PubTopics, q \in QoS :
+           /\ Must(t, q) # {}
+           /\ out' = ToJson([a |-> "pub", t |-> t, q |-> q, churn |-> FALSE, must |-> SetToSeq(Must(t, q)), may |-> SetToSeq(May(t, q)),
+                               low |-> SetToSeq({c \in Clients : \E s \in subs : s.c = c /\ Matches(s.f, t) /\ s.q < q})])
            /\ UNCHANGED vars /\ Frame
 StallPossible == \E c \in Clients, t \in PubTopics, q \in QoS : c \in Must(t, q) /\ (q = 0 => pol[c] = "prompt")
 GNext == /\ k < MaxSteps /\ k' = k + 1
          /\ IF UpOnly THEN GCPubX
+            ELSE IF WithResume THEN (IF k < SubSteps THEN GSub
+                                     ELSE IF (k - SubSteps) % 5 = 0 /\ ResumePossible THEN GResume ELSE GPubR)
             ELSE IF Alternate THEN (IF k % 2 = 0 THEN GSub \/ GUnsub
                                     ELSE IF WithStall /\ StallPossible THEN GStall ELSE GPub)
                               ELSE (GSub \/ GUnsub \/ GPub \/ GCPub \/ GCPubX \/ GStall)
@@ -86,4 +122,10 @@ GenFiltersWide == {FAH, FAB, FPB, FAP}
 GenTopics == {TAB, TAC, TA}
 GenFiltersNarrow == {FAB}
 GenTopicsNarrow == {TAB}
+(* stall universe: two disjoint filter / topic pairs, so that a stalled subscriber of one has a bystander on the other *)
+GenFiltersStall == {FAB, FAC}
+GenTopicsStall == {TAB, TAC}
+(* resume universe: literal filters, one per topic *)
+GenFiltersResume == {FAB, FAC, FA, FB, FC, FBA, FCA, FBC}
+GenTopicsResume == {TAB, TAC, TA, TB, TC, TBA, TCA, TBC}
 =============================================================================
